@@ -8,7 +8,7 @@ KANI = {
         'harnesses': dict(
             [('vk_int_to_float_k_ubig_f64_w3_pow2_' + s, {'kind': 'bounded', 'bound': _LOW3 + '2^k, k in %d..=%d' % (lo, lo + 15)})
              for s, lo in (('a', 0), ('b', 16), ('c', 32), ('d', 48))] +
-            [('vk_int_to_float_k_ubig_f64_w3_ones_' + s, {'kind': 'bounded', 'bound': _LOW3 + '2^(k+1)-1, k in %d..=%d' % (lo, lo + 15)})
+            [('vk_int_to_float_k_ubig_f64_w3_ones_' + s, {'kind': 'bounded', 'tier': 'thorough', 'bound': _LOW3 + '2^(k+1)-1, k in %d..=%d' % (lo, lo + 15)})
              for s, lo in (('a', 0), ('b', 16), ('c', 32), ('d', 48))] +
             [('vk_int_to_float_k_ubig_f64_w3_tie_even', {'kind': 'bounded', 'bound': _LOW3 + '2^k + 2^(k-53), k in 53..=63'}),
              ('vk_int_to_float_k_ubig_f64_w3_tie_odd', {'kind': 'bounded', 'bound': _LOW3 + '2^k + 3*2^(k-53), k in 53..=63'}),
@@ -17,7 +17,7 @@ KANI = {
              ('vk_int_to_float_k_ubig_f32_w3', {'kind': 'bounded', 'bound': _LOW3 + '2^k (k = 0,3,..,63), u64::MAX'}),
              ('vk_int_to_float_k_ibig_f32_w3', {'kind': 'bounded', 'bound': _LOW3 + 'from 8 values x both signs'}),
              ('vk_int_to_float_k_ubig_f64_w4', {'kind': 'bounded', 'bound': '4 words: three lower words fully symbolic x concrete top word 2^k (k = 7,15,..,63), 1, u64::MAX'}),
-             ('vk_int_to_float_k_ref_f64_w16', {'kind': 'bounded', 'bound': '16 words via TypedReprRef::RefLarge: 15 lower words fully symbolic x top word in {1, 2^63, u64::MAX} (incl. overflow to +inf)'}),
+             ('vk_int_to_float_k_ref_f64_w16', {'kind': 'bounded', 'tier': 'thorough', 'bound': '16 words via TypedReprRef::RefLarge: 15 lower words fully symbolic x top word in {1, 2^63, u64::MAX} (incl. overflow to +inf)'}),
              ('vk_int_to_float_k_ref_w17_inf', {'kind': 'bounded', 'bound': '17 words via TypedReprRef::RefLarge: 16 lower words fully symbolic x top word in {1, 2^63, u64::MAX}; to_f64 and to_f32'}),
              ]),
     },
